@@ -147,7 +147,7 @@ def deep_equal(seq1: Iterable[Any],
                         elif isinstance(value2, Decimal):
                             if value1 != float(value2):
                                 return False
-                        elif not isinstance(value2, (value1.__class__, int)):
+                        elif not isinstance(value2, (float, int)):
                             return False
                         elif value1 != value2:
                             return False
@@ -161,7 +161,7 @@ def deep_equal(seq1: Iterable[Any],
                         elif isinstance(value1, Decimal):
                             if value2 != float(value1):
                                 return False
-                        elif not isinstance(value1, (value2.__class__, int)):
+                        elif not isinstance(value1, (float, int)):
                             return False
                         elif value1 != value2:
                             return False
